@@ -1,5 +1,5 @@
 """The list of kernels regenerated from source on every run (see DESIGN.md Appendix A)."""
-from .kernels import Kernel as K
+from .kernels import FuncKernel, Kernel as K
 
 Z, B = "Z", "bool"
 
@@ -13,4 +13,10 @@ KERNELS = [
       [("current_time", Z)], Z, props=("C09",)),
     K("k_l2", "_client.py", "_get_protection_gke_from_cache", ("assign", "l2", 0),
       [("current_time", Z)], Z, props=("C09",)),
+
+    # ---- C02: the whole control skeleton of compute_l2_key ---------------------------------
+    FuncKernel("k_compute_l2_key", "_gkdi.py", "compute_l2_key",
+               params=[("request_l1", Z), ("request_l2", Z), ("rk_l1", Z), ("rk_l2", Z), ("rk_l1_key", "K"), ("rk_l2_key", "K")],
+               locals={"l1": Z, "l1_key": "K", "l2": Z, "l2_key": "K", "reseed_l2": B},
+               attr_params={}, props=("C02", "C05", "C10")),
 ]
